@@ -77,6 +77,7 @@ type Lemma struct {
 type ContractSet struct {
 	ModelFields map[string]string // name -> "KeySort\x00ValSort"
 	ModelFieldUses map[string][]string // name -> preludes that declare the sorts it needs
+	WorldFields map[string]bool // model fields that are world state: framed like heaps (unchanged unless listed in modifies)
 	Funcs       map[string]*FuncContract
 	Asserts     []AssertLine // raw SMT assertions placed after all declarations
 	Lemmas      []*Lemma
@@ -102,7 +103,7 @@ func splitNames(s string) []string {
 }
 
 func NewContractSet() *ContractSet {
-	return &ContractSet{Funcs: map[string]*FuncContract{}, ModelFields: map[string]string{}, ModelFieldUses: map[string][]string{}, GlobalVals: map[string]string{}}
+	return &ContractSet{Funcs: map[string]*FuncContract{}, ModelFields: map[string]string{}, ModelFieldUses: map[string][]string{}, WorldFields: map[string]bool{}, GlobalVals: map[string]string{}}
 }
 
 // qualify turns a short function name used in a /repo contract file into the SSA name:
@@ -136,6 +137,7 @@ func (cs *ContractSet) LoadLines(path string, lines []string, lineNos []int, pkg
 	var filePreludes []string
 	loop := 0
 	lets := map[string]Expr{}
+	fileLets := map[string]Expr{} // let lines before the first func: available in every contract of the file
 	parse := func(src string) (Expr, error) {
 		e, err := ParseExpr(src)
 		if err != nil {
@@ -200,6 +202,9 @@ func (cs *ContractSet) LoadLines(path string, lines []string, lineNos []int, pkg
 			curLemma = nil
 			loop = 0
 			lets = map[string]Expr{}
+			for n, x := range fileLets {
+				lets[n] = x
+			}
 		case kw == "ghostret": // ghostret NAME SORT = expr
 			if err := needCur(); err != nil {
 				return err
@@ -224,6 +229,9 @@ func (cs *ContractSet) LoadLines(path string, lines []string, lineNos []int, pkg
 				return fail(err)
 			}
 			lets[strings.TrimSpace(name)] = pe
+			if cur == nil && curLemma == nil {
+				fileLets[strings.TrimSpace(name)] = pe
+			}
 		case kw == "props":
 			if curLemma != nil {
 				curLemma.Props = append(curLemma.Props, splitNames(rest)...)
@@ -265,9 +273,13 @@ func (cs *ContractSet) LoadLines(path string, lines []string, lineNos []int, pkg
 				cur.Inline = append(cur.Inline, qualify(pkg, n))
 			}
 		case kw == "modelfield": // modelfield Name KeySort ValSort
+			if r, ok := strings.CutSuffix(rest, " world"); ok {
+				rest = strings.TrimSpace(r)
+				cs.WorldFields[strings.SplitN(rest, " ", 2)[0]] = true
+			}
 			parts := strings.SplitN(rest, " ", 3)
 			if len(parts) != 3 {
-				return fail(fmt.Errorf("modelfield Name KeySort ValSort"))
+				return fail(fmt.Errorf("modelfield Name KeySort ValSort [world]"))
 			}
 			v := parts[1] + "\x00" + strings.TrimSpace(parts[2])
 			if old, ok := cs.ModelFields[parts[0]]; ok && old != v {
